@@ -80,7 +80,8 @@ def run_batch_ext(ctx, cases, want_may=True, tag='cvx'):
                     reqs.append((('cv_circ_realizable', [ck, peps]), (ev, 'real', tx_id)))
                     if run.get('circ_must'):
                         reqs.append((('cv_circ_must', [ck, x]), (ev, 'must', tx_id)))
-            if not run.get('skip_oracle'):
+            # fusion records on an extended case (b-spec's fusion + circRNA cases): the fusion oracle of cvcheck.py
+            if c.get('fusions') and not run.get('skip_oracle') and hasattr(CK, 'fusion_requests'):
                 for api, arg, kind, fid in CK.fusion_requests(c, run, by_tx, prots, peps):
                     reqs.append(((api, arg), (ev, kind, fid)))
             evs.append(ev)
